@@ -298,9 +298,9 @@ def carry_counters(rng, bs):
         out.append((rbytes(rng, n), n))
     return out
 
-def cut_list(rng, total, bsz, Bsz):
+def cut_list(rng, total, bsz, Bsz, style=None):
     """ways of cutting `total` bytes into calls, aimed at the loop's case splits"""
-    style = rng.randrange(7)
+    if style is None: style = rng.randrange(9)
     cuts = []
     left = total
     if style == 0:
@@ -311,6 +311,10 @@ def cut_list(rng, total, bsz, Bsz):
         elif style == 3: n = rng.choice([Bsz - 1, Bsz, Bsz + 1, 2 * Bsz, 0])
         elif style == 4: n = rng.randint(0, 3 * Bsz)
         elif style == 5: n = rng.choice([0, 0, 1, 2, 3, rng.randint(1, bsz)])
+        elif style == 7:      # a short call (keystream left in the buffer) followed by one of at least a whole batch
+            n = rng.randint(1, max(1, Bsz - 1)) if len(cuts) % 2 == 0 else rng.choice([Bsz, Bsz + 1, 2 * Bsz - 1, 2 * Bsz, rng.randint(Bsz, 3 * Bsz)])
+        elif style == 8:      # every buffer state against every request class
+            n = rng.choice([1, bsz - 1, bsz, bsz + 1, Bsz - bsz, Bsz - 1, Bsz, Bsz + 1, Bsz + bsz, 2 * Bsz + 3])
         else: n = rng.randint(1, max(1, left))
         n = max(0, min(n, left))
         cuts.append(n); left -= n
@@ -366,10 +370,12 @@ def gen_c05_one(rng, kind, be, tier, with_rekey=False, with_invalid=False):
             s.add(l); s.add(l.replace(" %d " % a, " %d " % b, 1))
         total = rng.choice([0, 1, bs - 1, bs, bs + 1, B * bs - 1, B * bs, B * bs + 1, 2 * B * bs + 3,
                             rng.randint(0, 4 * B * bs + 5), rng.randint(0, 700 if tier == "quick" else 5000)])
+        forced = {1: 7, 2: 8}.get(it)              # two streams of every object exercise the short/long mixes
+        if forced is not None: total = 6 * B * bs + rng.randint(0, 2 * B * bs)
         data = rbytes(rng, total) if rng.random() < 0.7 else bytes(total)
         ref = s.add("%s crypt %d %s %d" % (kind, b, hexs(data), total))
         calls = []; pos = 0
-        for c_ in cut_list(rng, total, bs, B * bs):
+        for c_ in cut_list(rng, total, bs, B * bs, forced):
             opt = rng.choice(["", "", " inplace", " ai=%d ao=%d" % (rng.randrange(32), rng.randrange(32))])
             calls.append(s.add("%s crypt %d %s %d%s" % (kind, a, hexs(data[pos:pos + c_]), c_, opt)))
             pos += c_
